@@ -5,6 +5,7 @@ CONSTANTS
   Vals = {0, 1}
   MaxDepth = 3
   Extra = {}
+  DB = FALSE
   Dev = "none"
 VIEW MCView
 CONSTRAINT Depth
